@@ -298,6 +298,11 @@ func (w *World) oracleBitcoin(bi *BlockInfo) {
 		// an undecodable address is refunded at creation
 		if len(hist) == 0 && !w.Btc.addressPayable(cw.Address) && cw.Status != bitcointypes.WITHDRAWAL_STATUS_CANCELED {
 			w.violate("C05", "unpayable-address-not-refunded", "unpayable", "height %d: withdrawal %d to %q (not a standard address of %s) was created with status %s", b.Height, id, cw.Address, w.Cfg.Network, cw.Status)
+			// C17: pay-to-pubkey, foreign-network and malformed address strings must not decode
+			w.violate("C17", "non-standard-address-accepted", "unpayable-accepted", "height %d: withdrawal %d to %q, which is not a standard address of network %s, was accepted (status %s) instead of being refunded", b.Height, id, cw.Address, w.Cfg.Network, cw.Status)
+		}
+		if len(hist) == 0 {
+			w.Stats.OracleEvals["C17"]++
 		}
 		if len(hist) == 0 && w.Btc.addressPayable(cw.Address) && cw.Status == bitcointypes.WITHDRAWAL_STATUS_CANCELED {
 			w.violate("C17", "payable-address-refused", "payable-refused", "height %d: withdrawal %d to %q (a standard address of %s) was refunded at creation", b.Height, id, cw.Address, w.Cfg.Network)
